@@ -138,7 +138,8 @@ func getTLSWorld(t *testing.T, rc *RunCtx) *tlsWorld {
 }
 
 var tlsCredKinds = []string{"plaintext", "tls-no-client-cert", "self-signed-permitted-name", "other-authority-permitted-name", "host-trust-store-authority-permitted-name",
-	"intermediate-of-configured-authority", "valid-unpermitted-client", "valid-client-test01", "valid-client-test02", "valid-peer-signer-test02"}
+	"intermediate-of-configured-authority", "valid-unpermitted-client", "valid-client-test01", "valid-client-test02", "valid-peer-signer-test02",
+	"valid-client-test02-followed-by-forged-client-test01", "valid-unpermitted-client-followed-by-forged-client-test01"}
 
 func (w *tlsWorld) dial(srv *tlsServer, cred string) (*grpc.ClientConn, error) {
 	pool := x509.NewCertPool()
@@ -176,6 +177,15 @@ func (w *tlsWorld) dial(srv *tlsServer, cred string) (*grpc.ClientConn, error) {
 		cfg.Certificates = []tls.Certificate{pair(resources.ClientTest02Crt, resources.ClientTest02Key)}
 	case "valid-peer-signer-test02":
 		cfg.Certificates = []tls.Certificate{pair(resources.SignerTest02Crt, resources.SignerTest02Key)}
+	case "valid-client-test02-followed-by-forged-client-test01", "valid-unpermitted-client-followed-by-forged-client-test01":
+		// A genuine certificate with a self-made extra certificate bearing a permitted name appended to the chain.
+		c := pair(resources.ClientTest02Crt, resources.ClientTest02Key)
+		if cred == "valid-unpermitted-client-followed-by-forged-client-test01" {
+			c = pair(resources.ClientTest03Crt, resources.ClientTest03Key)
+		}
+		forged := mkLeaf("client-test01", nil, nil, false)
+		c.Certificate = append(c.Certificate, forged.Certificate[0])
+		cfg.Certificates = []tls.Certificate{c}
 	}
 	return grpc.NewClient(srv.addr, grpc.WithTransportCredentials(credentials.NewTLS(cfg)))
 }
@@ -390,7 +400,8 @@ func runTLS(t *testing.T, rc *RunCtx) {
 	defer cancel()
 	msg, what, err := m.call(ctx, cc, tc.wallet, uint64(idx+1)+rc.Seed%1000*1000)
 	rc.Logf("%s -> %q err=%v", name, what, err)
-	trusted := !tc.noCA && (cred == "valid-unpermitted-client" || cred == "valid-client-test01" || cred == "valid-client-test02" || cred == "valid-peer-signer-test02")
+	trusted := !tc.noCA && (cred == "valid-unpermitted-client" || cred == "valid-client-test01" || cred == "valid-client-test02" || cred == "valid-peer-signer-test02" ||
+		cred == "valid-client-test02-followed-by-forged-client-test01" || cred == "valid-unpermitted-client-followed-by-forged-client-test01")
 	sensitive := what == "SIGNATURE" || what == "ACCOUNTS" || what == "ACCOUNT-CREATED" || what == "SHARE" || what == "SUCCEEDED" || what == "PREPARED" || what == "EXECUTED" || what == "COMMITTED" || what == "ABORTED"
 	after, _ := srv.node.Inst.Export()
 	changed := ExportString(trimEmpty(after)) != ExportString(trimEmpty(before))
@@ -405,7 +416,8 @@ func runTLS(t *testing.T, rc *RunCtx) {
 		}
 	default:
 		rc.Stats.Inc("trusted_calls", 1)
-		identity := map[string]string{"valid-unpermitted-client": "client-test03", "valid-client-test01": "client-test01", "valid-client-test02": "client-test02", "valid-peer-signer-test02": "signer-test02"}[cred]
+		identity := map[string]string{"valid-unpermitted-client": "client-test03", "valid-client-test01": "client-test01", "valid-client-test02": "client-test02", "valid-peer-signer-test02": "signer-test02",
+			"valid-client-test02-followed-by-forged-client-test01": "client-test02", "valid-unpermitted-client-followed-by-forged-client-test01": "client-test03"}[cred]
 		allowedWallet := map[string]string{"client-test01": "Wallet 1", "client-test02": "Wallet 2"}[identity]
 		isDKG := len(m.Name) > 4 && m.Name[:4] == "DKG."
 		mayServe := (!isDKG && allowedWallet == tc.wallet) || (isDKG && false)
